@@ -75,6 +75,19 @@ func mixStr(d uint64, s string) uint64 {
 }
 func mixState(d uint64, s ref.State) uint64 { return mixStr(d, s.String()) }
 
+// callWriter: the caller's writer sees a sequence of Write calls, not just bytes (a line-oriented sink,
+// a writer that stamps or fails per call): the digest covers where each call begins and ends.
+type callWriter struct {
+	d     uint64
+	calls int
+}
+
+func (w *callWriter) Write(p []byte) (int, error) {
+	w.calls++
+	w.d = mixDigest(mixU64(w.d^0x9E3779B97F4A7C15, uint64(len(p))), p...)
+	return len(p), nil
+}
+
 type failWriter struct {
 	after, n int
 	sb       strings.Builder
@@ -184,12 +197,12 @@ func (a *c18actor) op(kind int, g *vf.Rng) (d uint64) {
 		tmp := &cpuRig{bus: &s.Bus}
 		tmp.loadPrim(st, false, g)
 		s.CPU = tmp.prim
-		var lg bytes.Buffer
+		var lg callWriter
 		s.Logger = &lg
 		ret := s.RunUntil(0x008000+uint32(g.Intn(200)), uint64(100+g.Intn(300)))
 		d = mixState(d, absPrim(&s.CPU))
 		d = mixU64(d, s.CPU.AllCycles)
-		d = mixDigest(d, lg.Bytes()...)
+		d = mixU64(d, lg.d)
 		if ret {
 			d = mixDigest(d, 1)
 		}
@@ -218,9 +231,9 @@ func (a *c18actor) op(kind int, g *vf.Rng) (d uint64) {
 			} else {
 				if i%8 == 0 {
 					a.rig.am = m
-					var sb strings.Builder
+					var sb callWriter
 					a.rig.alt.DisassembleCurrentPC(&sb)
-					d = mixStr(d, sb.String())
+					d = mixU64(d, sb.d)
 				}
 				res = a.rig.stepAlt(m)
 			}
@@ -261,6 +274,10 @@ func (a *c18actor) op(kind int, g *vf.Rng) (d uint64) {
 			d = mixStr(d, fmt.Sprint(err1 != nil, err2 != nil, fw.n, fw2.n))
 			d = mixStr(d, fw.sb.String())
 		}
+		var lw callWriter
+		_ = e.WriteTextTo(&lw)
+		_ = e.WriteHexTo(&lw)
+		d = mixU64(d, lw.d)
 		t1, _, _ := listText(e)
 		h1, _, _ := listHex(e)
 		d = mixDigest(d, e.Bytes()...)
